@@ -1,4 +1,5 @@
 import MaltModel.Analysis.Liveness
+import MaltModel.Proofs.C06Worklist
 /-!
 # C07 — liveness is sound: anything read later is reported live
 
@@ -171,6 +172,42 @@ theorem C07_model_sound (D : CfgData) (fuel : Nat) (hq : (liveRunModel D fuel).o
   have hV := C07_walk_visited D.graph.edges _ hc R len (he _ hend) hpath
   exact C07_live_sound _ _ _ _ _ hfix.toPostFix R len hV hpath hgen hkill i v j hj h
 
+/-- **Termination of the work-list model** of `visit_reverse`, no hypothesis: with the fuel `liveFuel D` (`fuelBound`, computed
+from the graph and the gen sets), or any larger fuel, the run reaches an empty work-list on every graph.  The bound is
+exponential in the number of nodes because the algorithm is (`Proofs/C06Worklist.lean`). -/
+theorem C07_worklist_terminates (D : CfgData) (fuel : Nat) (hfuel : liveFuel D ≤ fuel) : (liveRunModel D fuel).open_ = [] :=
+  run_terminates (Graph.revEdges D.graph.edges) (liveFlow D) D.exits fuel hfuel
+
+/-- **The model computes the least solution of the liveness equations**: a fixed point on its visited set (which contains the
+exits and is closed under predecessors) that is below every post-fixed point over any predecessor-closed node set containing
+the exits; hence independent of the iteration order (`lfp_unique`). -/
+theorem C07_worklist_lfp (D : CfgData) :
+    IsFix (Graph.revEdges D.graph.edges) (liveRunModel D (liveFuel D)).closed (liveFlow D)
+      (liveRunModel D (liveFuel D)).A (liveRunModel D (liveFuel D)).B ∧
+    closedUnder (Graph.revEdges D.graph.edges) (liveRunModel D (liveFuel D)).closed = true ∧
+    (∀ n, n ∈ D.exits → n ∈ (liveRunModel D (liveFuel D)).closed) ∧
+    ∀ (V' : List Nat) (OUT' IN' : St Nat), IsPostFix (Graph.revEdges D.graph.edges) V' (liveFlow D) OUT' IN' →
+      (∀ n, n ∈ D.exits → n ∈ V') → closedUnder (Graph.revEdges D.graph.edges) V' = true →
+      ∀ n v, (v ∈ (liveRunModel D (liveFuel D)).B n → v ∈ IN' n) ∧ (v ∈ (liveRunModel D (liveFuel D)).A n → v ∈ OUT' n) := by
+  obtain ⟨h1, h2, h3⟩ := C07_worklist_fix D (liveFuel D) (C07_worklist_terminates D _ (Nat.le_refl _))
+  refine ⟨h1, h2, h3, ?_⟩
+  intro V' OUT' IN' hpost hexits hclosed
+  exact run_below_postfix (Graph.revEdges D.graph.edges) (liveFlow D) D.exits V' OUT' IN' hpost hexits hclosed (liveFuel D)
+
+/-- Corollary for the REAL output: `Analyzer.in_/out` accepted by the post-fixed-point checker lie above the least solution … -/
+theorem C07_real_above_lfp (D : CfgData) (IN OUT : St Nat)
+    (h : isPostFix (Graph.revEdges D.graph.edges) (liveRunModel D (liveFuel D)).closed (liveFlow D) OUT IN = true) :
+    ∀ n v, (v ∈ (liveRunModel D (liveFuel D)).B n → v ∈ IN n) ∧ (v ∈ (liveRunModel D (liveFuel D)).A n → v ∈ OUT n) := by
+  obtain ⟨_, h2, h3, h4⟩ := C07_worklist_lfp D
+  exact h4 _ OUT IN (isPostFix_sound h) h3 h2
+
+/-- … and the `isLeast` check of the driver (`model_eq`) says the real live sets ARE the least solution, node by node. -/
+theorem C07_real_is_lfp (D : CfgData) (IN OUT : St Nat)
+    (hA : solEqOn D.graph.nodes (liveRunModel D (liveFuel D)).A OUT = true)
+    (hB : solEqOn D.graph.nodes (liveRunModel D (liveFuel D)).B IN = true) :
+    ∀ n, n ∈ D.graph.nodes → SetEq ((liveRunModel D (liveFuel D)).A n) (OUT n) ∧ SetEq ((liveRunModel D (liveFuel D)).B n) (IN n) :=
+  fun n hn => ⟨solEqOn_spec hA n hn, solEqOn_spec hB n hn⟩
+
 /-! ## The pinned tree, deviation (a): `def f(xs): x = 1; for x in xs: pass; return x` with `xs = []`
 (REAL graph / Scope sets / liveness `in_/out` / trace; variables 0 = xs, 1 = x; nodes 2 args, 4 `x = 1`, 9 header, 10 pass, 11 return) -/
 
@@ -220,6 +257,13 @@ example : stmtNextComplete ztD.graph.edges ztFor = true ∧ liveOutCovers ztIN z
 
 example : (liveRunModel ztD 100).open_ = [] ∧ solEqOn ztD.graph.nodes (liveRunModel ztD 100).A ztOUT = true
     ∧ solEqOn ztD.graph.nodes (liveRunModel ztD 100).B ztIN = true := by decide
+
+/-- Non-vacuity of the termination / least-solution theorems on the real graph of the first example -/
+example : (liveRunModel ztD (liveFuel ztD)).open_ = [] := C07_worklist_terminates ztD _ (Nat.le_refl _)
+example : solEqOn ztD.graph.nodes (liveRunModel ztD (liveFuel ztD)).A ztOUT = true ∧
+    solEqOn ztD.graph.nodes (liveRunModel ztD (liveFuel ztD)).B ztIN = true := by decide
+example : ∀ n v, (v ∈ (liveRunModel ztD (liveFuel ztD)).B n → v ∈ ztIN n) ∧ (v ∈ (liveRunModel ztD (liveFuel ztD)).A n → v ∈ ztOUT n) :=
+  C07_real_above_lfp ztD ztIN ztOUT (by decide)
 
 /-! ## Deviation (b), repaired by /repo ccf3d44: a reaching closure that declares the variable `nonlocal`
 
